@@ -643,7 +643,9 @@ impl Val {
                             let err = || ValError::InvalidStringToIntegerRadix(param.clone());
                             let radix = Self::try_to_integer(p, err)?
                                 .try_into()
-                                .map_err(|_| err())?;
+                                .ok()
+                                .filter(|radix| (2..=36).contains(radix))
+                                .ok_or_else(err)?;
                             let n = i64::from_str_radix(s, radix).map_err(|_| err())?;
                             *self = Val::Number(n as f64);
                             Ok(())
